@@ -330,8 +330,11 @@ def fb_loop_inv(I):
     return z3.BoolVal(True)
 
 
+FB_REPLAY = "import sys, threading\nfrom circuits.core.helpers import FallBackGenerator\nfrom circuits.core.events import generate_events\nbad = []\nfor tl in (0.0005, 0.25, 3.0, 1e-6):\n    waits = []\n    class Flag:\n        def clear(self): pass\n        def set(self): pass\n        def wait(self, t=None): waits.append(t)\n    fb = FallBackGenerator()\n    fb._continue = Flag()\n    ev = generate_events(threading.RLock(), -1)\n    ev.reduce_time_left(tl)\n    fb._on_generate_events(ev)\n    if any(w is None or w > tl for w in waits):\n        bad.append('time left %r: the fallback generator waited %r' % (tl, waits))\nfor b in bad: print(b)\nsys.exit(1 if bad else 0)\n"
+
 SPECS.append(FucSpec(
     'C09', 'circuits/core/helpers.py', 'FallBackGenerator._on_generate_events', fb_setup, fb_post, fields=FB_FIELDS,
+    replay=lambda model, ob: FB_REPLAY if 'wait' in ob['name'] else None,
     calls={'self._continue.clear': s_clear, 'self._continue.wait': fb_wait_obligation, 'event.reduce_time_left': s_fb_reduce, 'event.stop': s_ev_stop},
     getattr_hooks={'time_left': lambda I, o: VReal(I.fz(o, '_time_left')), 'lock': lambda I, o: I.st.read_field(o.t, '_lock')},
     loops={0: LoopSpec(inv=[('true', fb_loop_inv)], havoc_fields=['_time_left'])}, cover=['return', 'wait'],
